@@ -9,7 +9,7 @@ import itertools
 from fractions import Fraction
 
 import audiolazy
-from audiolazy import ZFilter, z, Stream
+from audiolazy import ZFilter, z, Stream, thub
 
 from vlib.inst import Lin, Probe, frac
 from props.filt_common import (recursion, syms, coef_at, pmul, padd, pneg,
@@ -75,7 +75,7 @@ def cases(ctx):
     op = rng.choice(["add", "sub", "mul", "scal", "rscal", "neg", "distrib",
                      "square", "addself", "sadd", "ssub", "rsadd", "rssub",
                      "pow2", "pow3", "pow4", "stmul", "rstmul", "stadd",
-                     "rstadd", "stdiv"])
+                     "rstadd", "stdiv", "addiir", "subiir", "muliir"])
     f_den = riir_den(rng, 2) if rng.random() < 0.4 else {0: 1}
     yield ("tvalg", op, (rfir(rng, 2), f_den), rfir(rng, 2), rfir(rng, 2),
            rng.choice([2, -3, 4, -1, 0.5]), rng.choice([1, 3, 6, 9, 13]))
@@ -84,8 +84,10 @@ def cases(ctx):
 # ----------------------------------------------------------------------------
 class Sources(object):
   """Real coefficient Streams over pull-counting probes, built from specs."""
-  def __init__(self):
+  def __init__(self, hubs=False):
     self.probes = []
+    self.hubs = hubs      # wrap some finite streams in a single-use tee hub
+    self.hub_count = 0
 
   def make(self, spec):
     if not isinstance(spec, tuple):
@@ -101,6 +103,11 @@ class Sources(object):
     else:
       p = Probe(list(vals), name="coef%d" % len(self.probes))
     self.probes.append(p)
+    if self.hubs and kind == "fin" and len(vals) % 3 == 0:
+      # a stream that may be used exactly once (StreamTeeHub is a subclass of
+      # Stream): still one coefficient stream, read once per sample
+      self.hub_count += 1
+      return thub(Stream(p), 1)
     return Stream(p)
 
 
@@ -177,7 +184,7 @@ def observe(ctx, case, res, x, probes, want):
 def run_case(ctx, case):
   if case[0] == "tv":
     _, num, den, xlen, form, zspec, mkind = case
-    src = Sources()
+    src = Sources(hubs=True)
     filt = build(src, num, den, form)
     if any(p.pulls for p in src.probes):
       ctx.violation("coefficient-stream/read-at-construction", case)
@@ -202,11 +209,15 @@ def run_case(ctx, case):
     if not isinstance(res, Stream):
       ctx.violation("result-not-a-Stream", case)
       return True
+    if src.hub_count:
+      ctx.count("single-use-hub-coefficients", src.hub_count)
     observe(ctx, case, res, x, src.probes, want)
     return xlen > 0
 
   _, op, (fnum, fden), gnum, hnum, c, xlen = case
-  src = Sources()
+  src = Sources(hubs=op in ("add", "sub", "mul", "scal", "rscal", "neg",
+                            "sadd", "ssub", "rsadd", "rssub", "addiir",
+                            "subiir", "muliir"))
   one = {0: 1}
   x = syms("x", xlen)
   # per-sample model
@@ -215,8 +226,15 @@ def run_case(ctx, case):
   # a bare Stream (or number) operand for the STREAM_OPS: the first
   # coefficient spec of h
   sspec = next(iter(hnum.values()), 2)
+  IIR_OPS = ("addiir", "subiir", "muliir")
+  # a second IIR filter: g's numerator over a CONSTANT denominator that has
+  # terms at the very delays of f's (possibly stream-valued) denominator
+  gden2 = {k_: (1 if k_ == 0 else (0.5, -0.25, 0.125)[k_ % 3])
+           for k_ in set(fden) | {0}}
   if op in SCALAR_OPS:
     specs = [fnum, fden]
+  elif op in IIR_OPS:
+    specs = [fnum, fden, gnum]
   elif op in STREAM_OPS:
     specs = [fnum, fden, {0: sspec}]
     if op == "stdiv":
@@ -262,6 +280,14 @@ def run_case(ctx, case):
       nn, dd = pmul(gn, gn), {0: Fraction(1)}
     elif op == "addself":     # g + g
       nn, dd = pscale(gn, 2), {0: Fraction(1)}
+    elif op in IIR_OPS:
+      gd = pclean({k_: frac(v) for k_, v in gden2.items()})
+      if op == "muliir":
+        nn, dd = pmul(fn, gn), pmul(fd, gd)
+      else:
+        cross = pmul(gn, fd)
+        nn = padd(pmul(fn, gd), cross if op == "addiir" else pneg(cross))
+        dd = pmul(fd, gd)
     elif op in STREAM_OPS:
       sv = frac(coef_at(sspec, n))
       if op in ("stmul", "rstmul"):           # f * s, s * f
@@ -318,6 +344,10 @@ def run_case(ctx, case):
       res_f = c + f
     elif op == "rssub":
       res_f = c - f
+    elif op in IIR_OPS:
+      g2 = ZFilter(dict(g.numpoly.terms()), dict(gden2))
+      res_f = f + g2 if op == "addiir" else f - g2 if op == "subiir" \
+          else f * g2
     elif op in STREAM_OPS:
       sreal = src.make(sspec)
       res_f = {"stmul": lambda: f * sreal, "rstmul": lambda: sreal * f,
@@ -343,11 +373,14 @@ def run_case(ctx, case):
     ctx.violation("coefficient-stream/read-at-construction", case)
     return True
   res = res_f(x, zero=0)
+  if src.hub_count:
+    ctx.count("single-use-hub-coefficients", src.hub_count)
   observe(ctx, case, res, x, src.probes, want)
   return n_out > 0
 
 
 def finish(ctx):
+  ctx.need("single-use-hub-coefficients", 200)
   for k in ["outputs-compared", "pull-counts-checked"]:
     ctx.need(k, 2000)
   for k in ["variable-a0", "constant-stream-coefficient", "ended-with-input",
@@ -356,5 +389,6 @@ def finish(ctx):
     ctx.need(k, 30)
   for op in ["add", "sub", "mul", "scal", "rscal", "neg", "distrib", "square",
              "addself", "sadd", "ssub", "rsadd", "rssub", "pow2", "pow3",
-             "pow4", "stmul", "rstmul", "stadd", "rstadd", "stdiv"]:
+             "pow4", "stmul", "rstmul", "stadd", "rstadd", "stdiv", "addiir",
+             "subiir", "muliir"]:
     ctx.need("algebra:" + op, 30)
